@@ -137,6 +137,10 @@ func ruleDeviceReadsAudited(p *Prog, r *Report, rule string) {
 	allowed := map[string]string{}
 	for _, row := range readTable("pure_reads.tsv", 3) {
 		allowed[row[0]+"|"+row[1]] = row[2]
+		// which of the reading functions an audited place uses (WaitShort, GetOutput) is a spelling
+		if allowed[row[0]] == "" {
+			allowed[row[0]] = row[2]
+		}
 	}
 	np := 0
 	seenP := map[string]bool{}
@@ -151,6 +155,9 @@ func ruleDeviceReadsAudited(p *Prog, r *Report, rule string) {
 		}
 		seenP[k] = true
 		why, ok := allowed[k]
+		if !ok {
+			why, ok = allowed[fnDisplay(s.Fn)]
+		}
 		r.add(rule, "pure-read|"+k, p.ipos(s.In), fmt.Sprintf("%s reads device output without sending a command first; audited: %q", fnDisplay(s.Fn), why), ok,
 			"a read that is not the answer to a command of its own takes whatever the device has printed meanwhile -- an error message that belongs to the previous command is logged and dropped instead of failing the echo check of the next command")
 	}
